@@ -1247,7 +1247,7 @@ pub static C15: HistProp = HistProp {
 pub static C16_META: PropMeta = PropMeta {
     id: "C16",
     level: "exploration",
-    rule: "cases: histories over fd-backed sources (Generic on eventfd/socketpair/pipe with all interest x mode pairs, ping, channel, probe sub-pings): insert, remove, disable, enable, update with changed interest/mode, into_source_inner + Generic::unwrap followed by re-insertion of the same fd, loop dropped before or after the sources. oracle after every step: /proc/self/fdinfo/<epoll fd> minus polling's own entries must hold exactly the keys of enabled sources; for Generic fds exact interest bits, mode bits and key. non-trivial: a released fd re-inserted, or interest/mode changed by update; distinct by case fingerprint; Generic sources may also be created over one of two shared eventfds (borrowed fd: at most one of the sources over it is registered at a time)",
+    rule: "cases: histories over fd-backed sources (Generic on eventfd/socketpair/pipe with all interest x mode pairs, ping, channel, probe sub-pings): insert, remove, disable, enable, update with changed interest/mode, into_source_inner + Generic::unwrap followed by re-insertion of the same fd, loop dropped before or after the sources. oracle after every step: /proc/self/fdinfo/<epoll fd> minus polling's own entries must hold exactly the keys of enabled sources; for Generic fds exact interest bits, mode bits and key. non-trivial: a released fd re-inserted, or interest/mode changed by update; distinct by case fingerprint; Generic sources may also be created over one of two shared eventfds (borrowed fd: at most one of the sources over it is registered at a time). sub-check transient_same_fd: C18's family of TransientSource children over one shared eventfd (alternately level/edge triggered; replace/remove/refill + update or Reregister), judged by the kernel-table rules (fd present iff a current kept child of a registered parent, entry mode = the current child's) and by 'no registration call fails'",
     assumptions: ASSUME,
 };
 
